@@ -53,7 +53,26 @@ for p in sorted(by):
             ex.append(o)
     rows.append(f"| {p} | {len(ms)} | {len(k)} | {', '.join(other) or '—'} | {'; '.join('`'+e+'`' for e in ex[:3])} |")
 own = "\n".join(rows)
-txt = tmpl.replace("SEEDED_TABLE", seeded).replace("OWN_TABLE", own).replace("OWN_COUNT", str(len(muts)))
+import glob
+
+locks = {}
+for f in glob.glob(os.path.join(V, "locks", "*.lock.json")):
+    d = json.load(open(f))
+    locks[os.path.basename(f)[:3]] = (len(d["units"]), sum(len(v["obligations"]) for v in d["units"].values()))
+
+
+def _cell(m):
+    pid = m.group(1)
+    if pid in locks:
+        return f"| {pid} | {locks[pid][0]} / {locks[pid][1]} |"
+    return m.group(0)
+
+
+tmpl = re.sub(r"^\| (C\d\d) \| [^|]* \|", _cell, tmpl, flags=re.M)
+tot_u, tot_o = sum(v[0] for v in locks.values()), sum(v[1] for v in locks.values())
+n_seeded = len(os.listdir(os.path.join(V, "seeded")))
+txt = (tmpl.replace("SEEDED_TABLE", seeded).replace("OWN_TABLE", own).replace("OWN_COUNT", str(len(muts))).replace("TOTAL_UNITS", str(tot_u))
+       .replace("TOTAL_OBLIGATIONS", str(tot_o)).replace("N_SEEDED", str(n_seeded)))
 dp = os.path.join(V, "DESIGN.md")
 doc = open(dp).read()
 B, E = "<!-- ASBUILT-BEGIN -->", "<!-- ASBUILT-END -->"
